@@ -88,6 +88,22 @@ DESC = {
  'C20b_m1': ('C20', 'one banner per rule: first target status for all targets', 'multi-target rule with mixed resolutions, no command run'),
  'C20b_m2': ('C20', 'only the last script line decides failure', 'as C20_m1'),
  'C20b_m3': ('C20', 'failures sorted and de-duplicated by message', 'two rules failing with the same message'),
+
+ 'C12b_m1': ('C12', 'stack.remove becomes stack.swap_remove when a waiting rule is moved to the top', '>= 5 rules in a particular shape and name order'),
+ 'C12b_m2': ('C12', 'targets/sources sorted in the Frame constructor, after sub-indices were recorded', 'multi-target rule whose parser order is not the sorted order, plus a dependent'),
+ 'C12b_m3': ('C12', 'self-dependence checked for every rule before the search', 'goal that does not reach a self-dependent rule; or a missing goal'),
+ 'C13b_m1': ('C13', 'targets no longer sorted in the sorter (history positions follow the spelling)', 'same target set re-spelled flat / nested where the two orders differ; build, re-spell, build'),
+ 'C13b_m2': ('C13', 'command hashed as one joined line', 'edit that only changes the line breaks of a command'),
+ 'C13b_m3': ('C13', 'command lines sorted before hashing', 'edit that swaps two command lines'),
+ 'C14b_m1': ('C14', 'repeated agreeing bundle entry overwrites the remembered line index', 'name written three times at one level, the third contradicting: the error names another (equally contradicting) earlier line'),
+ 'C14b_m2': ('C14', 'bundles resolved when their section closes', 'rule with two defects: malformed bundle and a later empty line / end of file: the other (equally true) diagnosis is reported'),
+ 'C14b_m3': ('C14', 'leaf-only directories collected without merging repeats', 'repeated entry inside a tab-indented leaf-only directory'),
+ 'C16b_m1': ('C16', 'empty table file read as "no states yet"', 'zero-length table file'),
+ 'C16b_m2': ('C16', '8 KiB decode limit on rule histories', 'history larger than 8192 bytes'),
+ 'C16b_m3': ('C16', 'recording an empty history is skipped', 'an empty history recorded over a populated one (or for a new rule)'),
+ 'C19b_m1': ('C19', 'is_file pre-check removed in SysCache::open', 'a directory in the cache under a valid hash name'),
+ 'C19b_m2': ('C19', 'History memoises rule histories', 'as C19_m2'),
+ 'C19b_m3': ('C19', 'routes rebuilt without the end-of-path check', 'as C19_m1'),
 }
 rows = []
 for d in sorted(glob.glob('/verif/seeded/*/')):
